@@ -119,6 +119,20 @@ fn all_names(p: &Prog) -> Vec<String> {
     out
 }
 
+/// F27's arithmetic symptom: the build's value is what the SOURCE means when every parameter is bound to the
+/// atom spelling its own NAME (the evaluator replaced variables by their names and folded the rest)
+fn equals_reference_on_names(prog: &Prog, got: &T) -> bool {
+    fn fill(p: &Pat) -> T {
+        match p {
+            Pat::Name(n) => T::a(n.as_bytes()),
+            Pat::Nil => T::nil(),
+            Pat::Cons(a, b) => T::p(fill(a), fill(b)),
+            Pat::At(_, s) => fill(s),
+        }
+    }
+    matches!(reference(prog, &fill(&prog.params)), Ok(v) if v == *got)
+}
+
 fn leaks_a_name(v: &T, names: &[String]) -> bool {
     match v {
         T::A(b) => {
@@ -166,7 +180,7 @@ fn c01_sig(case: &Case, sigil: &str, optname: &str, kind: &str, got: Option<&Out
     if kind == "wrong-result" {
         if sigil == "*standard-cl-22*" {
             let names = all_names(&case.prog);
-            let leaked_value = matches!(got, Some(Out::Val(v)) if leaks_a_name(v, &names));
+            let leaked_value = matches!(got, Some(Out::Val(v)) if leaks_a_name(v, &names) || equals_reference_on_names(&case.prog, v));
             let leaked_code = code.map(|c| leaks_a_name(c, &names)).unwrap_or(false);
             if leaked_value || leaked_code {
                 return "cl22-frontend-optimiser/variable-replaced-by-its-name".to_string();
@@ -412,11 +426,12 @@ pub fn c01(thorough: bool, replay: Option<String>) -> i32 {
         calls.extend(nested_cases(Some(s)));
         calls.extend(many_helpers_cases(Some(s), if thorough { 16 } else { 9 }));
         calls.extend(cse_cases(Some(s), thorough));
+        calls.extend(constcond_cases(Some(s)).into_iter().enumerate().filter(|(i, _)| thorough || i % 2 == 0).map(|(_, c)| c));
         calls.extend(const_graph_cases(Some(s), if thorough { 4 } else { 3 }).into_iter().filter(|c| thorough || c.tags[1].ends_with("order0") || c.tags[1].ends_with("order1")));
     }
     let n = calls.len() as u64;
     let (st, capped) = par_range(n, 8, cap, || (), |_, st, i| check_c01_case(st, &calls[i as usize], "CALLS"));
-    rep.add_sub("CALLS", "recursion, mutual recursion, modules with 1..9 (thorough 16) helpers in three kind mixes, repeated (possibly raising) subexpressions in every conditional tree of depth <= 2 over two conditions and under 5 binder kinds x 5 non-root contexts, chains of defconst constants depending on each other directly / through a defun / inline / macro, lambdas capturing 1..4 variables (applied directly and through a helper), nested (mod ...) forms applied with `a` (outer helper kind x inner helper kind incl. a reused function name x 4 positions), constant/zero-argument calls inside helpers, every defun/inline assignment of call chains with a &rest tail at every call site, and every (parameters 1..4, given 0..n) combination of a &rest call with missing positional arguments, x 6 sigils x 2 option sets", n, true, capped, st);
+    rep.add_sub("CALLS", "recursion, mutual recursion, modules with 1..9 (thorough 16) helpers in three kind mixes, conditionals whose condition is a compile-time constant in 5 guises (literal, defconstant, not, nested if selecting nil / zero / one, an inline function of a literal), repeated (possibly raising) subexpressions in every conditional tree of depth <= 2 over two conditions and under 5 binder kinds x 5 non-root contexts, chains of defconst constants depending on each other directly / through a defun / inline / macro, lambdas capturing 1..4 variables (applied directly and through a helper), nested (mod ...) forms applied with `a` (outer helper kind x inner helper kind incl. a reused function name x 4 positions), constant/zero-argument calls inside helpers, every defun/inline assignment of call chains with a &rest tail at every call site, and every (parameters 1..4, given 0..n) combination of a &rest call with missing positional arguments, x 6 sigils x 2 option sets", n, true, capped, st);
 
     let n = sp.kernel.len() as u64 * ns;
     let (st, capped) = par_range(n, 16, cap, || (), |_, st, i| {
@@ -528,7 +543,7 @@ fn compare_builds(
             }
             if c.1 {
                 let names = case.map(|cs| all_names(&cs.prog)).unwrap_or_default();
-                let leaked_value = matches!(got, Some(Out::Val(v)) if leaks_a_name(v, &names));
+                let leaked_value = matches!(got, Some(Out::Val(v)) if leaks_a_name(v, &names) || case.map(|cs| equals_reference_on_names(&cs.prog, v)).unwrap_or(false));
                 let leaked_code = code.map(|c| leaks_a_name(c, &names)).unwrap_or(false);
                 if leaked_value || leaked_code {
                     return "frontend-optimiser/variable-replaced-by-its-name".to_string();
@@ -723,6 +738,7 @@ pub fn c02(thorough: bool, replay: Option<String>) -> i32 {
     // quick tier: every 2nd / 4th / 2nd member of these families by index (fixed sub-enumerations, the full families run in C01's quick tier)
     cases.extend(nested_cases(None).into_iter().enumerate().filter(|(i, _)| thorough || i % 2 == 0).map(|(_, c)| c));
     cases.extend(many_helpers_cases(None, if thorough { 12 } else { 5 }));
+    cases.extend(constcond_cases(None).into_iter().enumerate().filter(|(i, _)| thorough || i % 3 == 1).map(|(_, c)| c));
     cases.extend(cse_cases(None, thorough).into_iter().enumerate().filter(|(i, _)| thorough || i % 4 == 0).map(|(_, c)| c));
     cases.extend(lookalike_cases(None, thorough, if thorough { &["main-body", "function-body", "defconst", "inline-argument"] } else { &["main-body"] }).into_iter().enumerate().filter(|(i, _)| thorough || i % 2 == 0).map(|(_, c)| c));
     for e in kernel_exprs(1) {
